@@ -197,7 +197,8 @@ fn scheme_guards(file: &syn::File, env: &crate::mini::Env, block: &syn::Block, d
         match e {
             syn::Expr::If(i) => {
                 if let syn::Expr::Binary(b) = crate::mini::strip(&i.cond) {
-                    let (subj, lit) = match (str_lit(&b.right), str_lit(&b.left)) {
+                    let lit_of = |x: &syn::Expr| str_lit(x).or_else(|| crate::authurl::const_str(x));
+                    let (subj, lit) = match (lit_of(&b.right), lit_of(&b.left)) {
                         (Some(l), _) => (&b.left, l),
                         (_, Some(l)) => (&b.right, l),
                         _ => continue,
@@ -218,6 +219,26 @@ fn scheme_guards(file: &syn::File, env: &crate::mini::Env, block: &syn::Block, d
                 let mut refusal = None;
                 let mut other = false;
                 for arm in &m.arms {
+                    // a named string constant in pattern position reads as its literal
+                    let const_pat: Option<String> = match &arm.pat {
+                        syn::Pat::Ident(pi) if pi.subpat.is_none() && pi.by_ref.is_none() => {
+                            let id = &pi.ident;
+                            crate::authurl::const_str(&syn::parse_quote!(#id))
+                        }
+                        syn::Pat::Path(pp) => {
+                            let path = &pp.path;
+                            crate::authurl::const_str(&syn::parse_quote!(#path))
+                        }
+                        _ => None,
+                    };
+                    if let (Some(l), true) = (&const_pat, arm.guard.is_none()) {
+                        if err_variant(&arm.body).is_none() {
+                            lits.push(l.clone());
+                        } else {
+                            other = true;
+                        }
+                        continue;
+                    }
                     match &arm.pat {
                         syn::Pat::Lit(l) if arm.guard.is_none() => match &l.lit {
                             syn::Lit::Str(x) if err_variant(&arm.body).is_none() => lits.push(x.value()),
@@ -446,6 +467,7 @@ pub fn extract(srcs: &Sources, inv: &Inv, soft: &mut Vec<Failure>) -> R<String> 
         env.rename(p, &format!("p{k}"));
     }
     let mut hits = Vec::new();
+    crate::authurl::collect_str_consts(rev);
     scheme_guards(rev, &env, &rti.block, 2, &mut hits);
     match hits.as_slice() {
         [h] => Ok(h.clone()),
